@@ -143,7 +143,7 @@ def _selfcheck():
         raise RuntimeError('self-check: deepcopy successor differs from fresh replay')
 
 
-def _bfs(cfg, roots, depth, seed, procs):
+def _bfs(cfg, roots, depth, seed, procs, pool=None):
     from vf import ci_world as cw
 
     visited = set()
@@ -162,12 +162,10 @@ def _bfs(cfg, roots, depth, seed, procs):
         if not frontier:
             break
         items = [(cfg, h, d) for h, d in par.rotate(sorted(frontier), seed)]
-        gc.collect()
-        gc.freeze()  # forked workers must not copy-on-write the whole heap when their collector runs
-        try:
-            rows = par.pmap(_expand_chunk, _chunks(items, procs), procs, chunksize=1)
-        finally:
-            gc.unfreeze()
+        if pool is None or len(items) < 200:
+            rows = [_expand_chunk(items)]
+        else:
+            rows = pool.map(_expand_chunk, _chunks(items, procs), chunksize=1)
         nxt = {}
         for succ, c, v, ms, nt in rows:
             transitions += nt
@@ -210,9 +208,25 @@ def check(tier, seed, procs):
     states = transitions = 0
     counters, viols, samples, per_cfg = {}, {}, [], {}
     capped = False
+    pool = None
+    if procs > 1:
+        # one pool of forked workers for the whole run (forking per BFS level costs seconds on a busy machine)
+        import multiprocessing as mp
+
+        cw.install_seams()
+        gc.collect()
+        gc.freeze()  # workers must not copy-on-write the parent's heap when their collector runs
+        pool = mp.get_context('fork').Pool(procs)
+    try:
+        results = {name: _bfs(cfg, roots, depths[tier], seed, procs, pool) for name, (cfg, roots, depths) in CONFIGS.items()}
+    finally:
+        if pool is not None:
+            pool.terminate()
+            pool.join()
+            gc.unfreeze()
     for name, (cfg, roots, depths) in CONFIGS.items():
         depth = depths[tier]
-        n, tr, c, v, sm, levels, cap = _bfs(cfg, roots, depth, seed, procs)
+        n, tr, c, v, sm, levels, cap = results[name]
         states += n
         transitions += tr
         capped = capped or cap
